@@ -508,9 +508,16 @@ theorem powellDoStep_tally (ht : Tally I R) (fuel : Nat) (s s' : St G (Powell α
                   · exact ht.cast (ht.trans _ _ _ _ _ (ht.trans _ _ _ _ _ (ht.trans _ _ _ _ _ hR1 h2) h3) h4) (by omega)
                   · show s1.core.nbEval + k3 + 1 = _
                     omega
-          · simp only [Except.ok.injEq, Prod.mk.injEq] at h
-            obtain ⟨rfl, -⟩ := h
-            exact ⟨k1, ht.trans _ _ _ _ _ hR1 h2, hnb1, hmax1⟩
+          · split at h
+            · cases h
+            · rename_i fn3 hs3
+              have h3 := ht.set_ok _ _ _ hs3
+              simp only [Except.ok.injEq, Prod.mk.injEq] at h
+              obtain ⟨rfl, -⟩ := h
+              refine ⟨k1 + 1, ?_, ?_, hmax1⟩
+              · exact ht.cast (ht.trans _ _ _ _ _ (ht.trans _ _ _ _ _ hR1 h2) h3) (by omega)
+              · show s1.core.nbEval + 1 = _
+                omega
         · split at h
           · cases h
           · rename_i fn3 hs3
